@@ -145,5 +145,9 @@ ExtendActs == {ExtendAct(b, "true", m) : b \in BaseLists, m \in Methods}
               \cup {ExtendAct(<<"Formatter">>, "absent", "format_type_error")}
 RegisterActs == {RegisterAct(n, c) : n \in Names, c \in AllCls}
 Acts == ExtendActs \cup RegisterActs
+\* the part of the alphabet that concerns message rendering (used by C03's run of the machine)
+FormatterActs == {a \in ExtendActs : a.bases = <<"Formatter">>}
+                 \cup {ExtendAct(<<"Validator">>, "true", "_private"), RegisterAct("x", "CFull")}
+ActsFor(scope) == IF scope = "formatter" THEN FormatterActs ELSE Acts
 
 =============================================================================
